@@ -349,7 +349,7 @@ pub fn key_num(k: &dyn Debug) -> String {
   s[1..].to_string()
 }
 pub fn rc_id(c: &str) -> &'static str {
-  match c { "MapEqualsChecker" => "0", "RParity" => "1", "RExists" => "2", "RAlways" => "3", "RFailing" => "4", "RFailStamp" => "5", _ => "?" }
+  match c { "MapEqualsChecker" | "XExact" => "0", "RParity" => "1", "RExists" => "2", "RAlways" => "3", "RFailing" => "4", "RFailStamp" => "5", _ => "?" }
 }
 pub fn oc_id(c: &str) -> &'static str {
   match c { "EqualsChecker" => "0", "OutParity" => "1", "AlwaysConsistent" => "2", _ => "?" }
